@@ -906,7 +906,7 @@ def const_str(o):
 # decision tables and symbolic inlining
 
 
-def decision_paths(body, max_paths=4000):
+def decision_paths(body, max_paths=4000, start=0, stop=None):
     """Path-sensitive symbolic walk: enumerate acyclic paths entry -> return, executing assignments symbolically.
     Each result: (conds, ret_expr, last_bb) where conds is a list of (discr_expr, value) for every SwitchInt taken
     (value = matched int or ('otherwise', (v1, v2, ..))) and ret_expr the value of _0 on that path. Paths ending in
@@ -985,6 +985,11 @@ def decision_paths(body, max_paths=4000):
                     env[s["lhs"]["l"]] = ("agg", "tuple", tuple(comps))
         t = body.blocks[bb]["term"]
         k = t["k"]
+        if stop is not None and bb in stop:
+            # region mode: the path ends here; the symbolic environment (after this block's statements) is returned, together
+            # with an evaluator for operands in that environment
+            out.append((list(conds), (env, lambda o, env=env: operand(env, o)), bb))
+            return
         if k == "return":
             out.append((list(conds), env.get(0, ("tmp", 0)), bb))
             return
@@ -1018,7 +1023,7 @@ def decision_paths(body, max_paths=4000):
             if sx not in seen:
                 rec(sx, conds, seen | {sx}, env)
 
-    rec(0, [], {0}, {})
+    rec(start, [], {start}, {})
     return out
 
 
